@@ -18,3 +18,24 @@ build_plain() {
   if [ -n "${2:-}" ]; then ov=(-overlay "$2"); fi
   (cd $ENGINE && go build -modfile="$W/engine.mod" "${ov[@]}" -tags verif -o "$W/$1" ./cmd/$1) || { echo "HARNESS-ERROR: build of $1 failed" >&2; exit 2; }
 }
+
+# overlay that adds the verif-tagged driver stub to package main of $REPO
+main_overlay() {
+  cat > "$W/main-overlay.json" <<EOT
+{"Replace": {"$REPO/zz_verif_spatialite.go": "$ENGINE/overlay/zz_verif_spatialite.go.src",
+             "$REPO/zz_verif_validate_test.go": "$ENGINE/overlay/zz_verif_validate_test.go.src"}}
+EOT
+}
+
+# build_texel : the real CLI binary from $REPO's working tree + driver stub
+build_texel() {
+  prep_modfiles; main_overlay
+  (cd $REPO && go build -modfile="$W/repo.mod" -overlay "$W/main-overlay.json" -tags verif -o "$W/texel" .) || { echo "HARNESS-ERROR: build of texel failed" >&2; exit 2; }
+  export VERIF_TEXEL_BIN="$W/texel"
+}
+
+# run_main_test <TestName> : overlay-added in-package test of package main
+run_main_test() {
+  prep_modfiles; main_overlay
+  (cd $REPO && go test -modfile="$W/repo.mod" -overlay "$W/main-overlay.json" -tags verif -vet=off -count=1 -run "^$1\$" . > "$W/main-test.log" 2>&1) || { cat "$W/main-test.log" >&2; echo "HARNESS-ERROR: in-package test $1 failed" >&2; exit 2; }
+}
